@@ -187,11 +187,14 @@ def static_part(ck):
     # path witnesses: every rejected function with a witness has a theorem `exists path, exec ... /\ trace violates the discipline`
     wits = g.get("witness", {})
     if wits:
-        ok2, out2 = core.coq_make(["gen/LockRefuted.vo"])
-        names = core.theorems_of(core.COQ / "gen" / "LockRefuted.v")
-        pa = None
-        if ok2:
-            pa, _ = core.print_assumptions("gen.LockRefuted", names)
+        # (gen/LockRefuted.v was written by the regeneration step of ck.coq; the names are read under the same lock as the build)
+        holder = {}
+        def _pa():
+            holder["names"] = core.theorems_of(core.COQ / "gen" / "LockRefuted.v")
+            return core.print_assumptions("gen.LockRefuted", holder["names"])
+        ok2, out2, pares = core.coq_make(["gen/LockRefuted.vo"], then=_pa)
+        names = holder.get("names") or core.theorems_of(core.COQ / "gen" / "LockRefuted.v")
+        pa = pares[0] if (ok2 and pares) else None
         for n in names:
             good = bool(ok2 and pa and pa.get(n) == "closed")
             ck.obligation(n, good, "witness path checked by vm_compute through PathRun.run_sound; Closed under the global context" if good else "witness did not check: " + out2[-300:])
